@@ -272,7 +272,9 @@ def run(ctx):
         from ..interp import Interp, Obj, Raised, Env
         probe_texts = ['select #', 'select a\nfrom t #', 'select a\n  from t\nwhere # x', '#', 'select a\r\nfrom t\r\nwhere ^ x', 'a\r\n#', 'select 1\n\n\n  #',
                        # line ends inside a comment / a quoted string / a quoted name are consumed by rules that do not advance the lexer's line counter
-                       'select /* a\nb */ 1 #', "select 'x\ny' as s,\n #", 'select a\n/* c1\n c2 */\nfrom t #', 'select `a\nb`\nfrom t\nwhere #']
+                       'select /* a\nb */ 1 #', "select 'x\ny' as s,\n #", 'select a\n/* c1\n c2 */\nfrom t #', 'select `a\nb`\nfrom t\nwhere #',
+                       # the illegal character in the FIRST line of a text of several lines
+                       'select # a\nfrom t', '#\nselect 1\nfrom t']
         import re as _re2
 
         def counted_lines(text, upto):
@@ -283,7 +285,7 @@ def run(ctx):
                     n_ += len(m_.group(0))
             return n_
         for text in probe_texts:
-            idx = min(i for i in (text.rfind('#'), text.rfind('^')) if i >= 0)
+            idx = min(i for i in ((text.find('#') if text.count('\n', text.find('#')) and text.count('#') == 1 else text.rfind('#')), text.rfind('^')) if i >= 0)
             it = Interp({}, {'LexError': lambda itp, *a: Obj('LexError', args=tuple(a))})
             it.module = ctx.src.tree(lex.file)
             self_ = Obj(lex.cls, text=text, index=idx, lineno=counted_lines(text, idx))
